@@ -147,6 +147,45 @@ def sweep(intervals):
     return bad
 
 
+def main_module_scenario(method, res, case):
+    """A program whose main script makes a synchronized call at module level, run as a
+    process of its own under this run's pty; its interval logs are swept like the others
+    (reported under a key of its own: it is a different mechanism)."""
+    import subprocess
+
+    d = tempfile.mkdtemp(prefix="vf-c14m-")
+    try:
+        env2 = dict(os.environ, VF_C14_MAINMOD_DIR=d)
+        try:
+            subprocess.run([sys.executable, "-B", "-m", "vf.c14_mainmod", method], env=env2, cwd=os.path.dirname(os.path.dirname(os.path.dirname(os.path.abspath(__file__)))), timeout=90, stdin=subprocess.DEVNULL)
+        except subprocess.TimeoutExpired:
+            res.inconclusive.append("main-module scenario (%s) did not finish" % method)
+            return
+        intervals = []
+        for path in glob.glob(os.path.join(d, "log-*.jsonl")):
+            with open(path) as f:
+                for line in f:
+                    r = json.loads(line)
+                    intervals.append(((r[1], r[2]), r[5], r[6], r[3]))
+        res.count("probe intervals swept", len(intervals))
+        children = {w[0][0] for w in intervals if w[3].startswith("module-level:__mp_main__")}
+        res.count("module-level synchronized calls executed in spawned children (%s)" % method, len(children))
+        bad = [(a, b) for a, b in sweep(intervals) if "module-level:__mp_main__" in (a[3], b[3])]
+        other = [(a, b) for a, b in sweep(intervals) if "module-level:__mp_main__" not in (a[3], b[3])]
+        if other:
+            a, b = other[0]
+            res.violation("C14:overlap", "%d overlapping synchronized intervals in the main-module program, e.g. %s (%s) and %s (%s); start method %s" % (len(other), a[0], a[3], b[0], b[3], method), case)
+        if bad:
+            a, b = bad[0]
+            res.violation(
+                "C14:overlap-module-level-call-in-child",
+                "%d overlaps between a synchronized call made at module level of the main script -- executed in a %s child while it re-imports that script -- and synchronized calls elsewhere in the tree, e.g. %s [%d..%d] (%s) and %s [%d..%d] (%s)" % (len(bad), method, a[0], a[1], a[2], a[3], b[0], b[1], b[2], b[3]),
+                case,
+            )
+    finally:
+        shutil.rmtree(d, ignore_errors=True)
+
+
 def run_shard(shard, env):
     res = Result(shard)
     cfg = shard["cfg"]
@@ -321,6 +360,8 @@ def run_shard(shard, env):
             res.violation("C14:start-raised", "Process.start() of a process created as %s (context method %s, default start method %s) raised %s" % (cfg.get("create"), cfg.get("ctx_method"), cfg["method"], start_errors[0][:300]), case)
         if stolen and not hung:
             res.violation("C14:reply-stolen", "%d observations, e.g. %s; start method %s" % (len(stolen), stolen[0], cfg["method"]), case)
+        if (shard["index"] in (1, 2) and cfg["method"] != "fork" and "replay" not in shard) or (shard.get("replay") or {}).get("mainmod"):
+            main_module_scenario(cfg["method"], res, dict(case, mainmod=True))
         exits = [p.exitcode for p in procs if p.pid]
         if any(e not in (0, None) for e in exits) and not hung:
             res.inconclusive.append("child exit codes %s (cfg %s)" % (exits, cfg))
